@@ -155,6 +155,7 @@ type Machine struct {
 	// selftest (the repository's own tests under the interpreter)
 	entryArgs     func() []value
 	clockTicks    bool
+	builders      map[*value]*builderState
 	fmtExact      bool // fmt model: the verbs in use do not print type names
 	testFailWhere string
 	clock         uint64
@@ -744,6 +745,7 @@ func (m *Machine) resetPath() {
 	m.opts = m.baseOpts
 	m.testFailed, m.testSkipped, m.testCleanups = false, false, nil
 	m.clock = 0
+	m.builders = nil
 }
 
 func (m *Machine) runPath(fn *ssa.Function) *abortPath {
